@@ -170,6 +170,12 @@ def _cases(draw, tier):
         macros[name] = [draw(_macro_variant()) for _ in range(draw(st.integers(1, 3)))]
         if draw(st.integers(0, 3)) == 0:
             macros[name].append(draw(_macro_variant(like=draw(st.sampled_from(macros[name])), allow_bad=False)))
+    wide = draw(st.integers(0, 9)) == 0
+    if wide:
+        # a macro of eleven operands: placeholder indices of two digits
+        idx = draw(st.lists(st.integers(0, 10), min_size=2, max_size=4))
+        macros['wide11'] = [{'operands': {'count': 11, 'operand_sets': {'list': ['imm8'] * 11}},
+                             'instructions': [f'ldi @ARG({i})' for i in idx] + ['ldi @ARG(10)', 'ldi @ARG(1)']}]
     cfg['macros'] = macros
     isa = R.Isa(cfg)
     origin = draw(st.sampled_from([0, 0x100, 0x7F00]))
